@@ -25,6 +25,7 @@ import Mahotas.Proofs.C12Label
 import Mahotas.Proofs.C12Cwatershed
 import Mahotas.Proofs.C12Kernels2
 import Mahotas.Proofs.C12Histogram
+import Mahotas.Proofs.C12Kernels3
 import Mahotas.Generated.Statics
 namespace Mahotas.C12
 open Mahotas
@@ -1152,4 +1153,91 @@ def vHr : C08.View := { base := 6, shape := [4], strides := [-2] }
 example : (List.range 4).map (C08.readIter memH vHr) = [1, 2, 0, 2] ∧
     (C08.labeledFoldView (fun (_ r : Int) => r + 1) 0 3 memH vHr memH vHr).toList = [1, 1, 2] ∧
     (C13.histogram 3 [1, 2, 0, 2]).toList = [1, 1, 2] := by decide +kernel
+end Mahotas.C12.Examples4
+
+
+/-! ## Round 4 — third table of access programs (`Model/C12Kernels3.lean`): `majority_filter` -/
+
+open Mahotas Mahotas.C12 in
+/-- **C12-T4 (third table: confinement).** `C12_kernel_confined` for every kernel of `Kernel3` (today: `majority_filter`,
+a gather kernel reading `input.at(y+dy, x+dx)` on any strides): on every footprint with at least one owned array every
+step is `Within` the call (write set ⊆ outputs, read set ⊆ inputs ∪ outputs), and in every family of calls with pairwise
+disjoint outputs every compiled step is `Step.Confined t` — so `C12_concurrent_calls_independent` gives: after EVERY
+schedule each owned location equals the solo run. -/
+theorem C12_kernels3_confined (k : Kernel3) (c : Call) (hne : c.outputs ≠ []) :
+    (∀ s ∈ (k.call c).prog, s.Within c) ∧
+    (∀ l ∈ writeSet (k.call c).prog, l.arr ∈ c.outputs) ∧
+    (∀ l ∈ readSet (k.call c).prog, l.arr ∈ c.inputs ∨ l.arr ∈ c.outputs) ∧
+    (∀ (kcs : List KCall) (t : Nat), kcs[t]? = some (k.call c) → DisjointOutputs (kcs.map (·.call)) →
+      ∀ s ∈ compile kcs t, s.Confined t) := by
+  have hw : ∀ s ∈ (k.call c).prog, s.Within c := prog_within (k.call c) hne
+  refine ⟨hw, ?_, ?_, ?_⟩
+  · intro l hl
+    simp only [writeSet, List.mem_map] at hl
+    obtain ⟨s, hs, rfl⟩ := hl
+    exact (hw s hs).1
+  · intro l hl
+    simp only [readSet, List.mem_flatMap] at hl
+    obtain ⟨s, hs, hl⟩ := hl
+    exact (hw s hs).2 l hl
+  · intro kcs t ht hd s hs
+    unfold compile at hs
+    rw [ht] at hs
+    simp only [List.mem_map] at hs
+    obtain ⟨ks, hks, rfl⟩ := hs
+    exact compile_step_confined _ hd t c (by simp [ht, Kernel3.call]) ks (hw ks hks)
+
+open Mahotas Mahotas.C12 in
+/-- **C12-T4 (third table: roles within the arity).** Every role a step of a `Kernel3` program mentions exists in a call of
+the kernel's arity; on every footprint with at least that arity the strict resolution `mkStep?` (which fails instead of
+falling back to a default array) returns exactly `mkStep c r`. -/
+theorem C12_kernels3_roles_ok (k : Kernel3) :
+    (∀ r ∈ k.raw, r.rolesOk k.arity = true) ∧
+    (∀ c : Call, c.HasArity k.arity → ∀ r ∈ k.raw, mkStep? c r = some (mkStep c r)) :=
+  ⟨kernel3_rolesOk k, fun c hc r hr => mkStep?_of_rolesOk c k.arity hc r (kernel3_rolesOk k r hr)⟩
+
+open Mahotas Mahotas.C12 in
+/-- **C12-T4 (tie: the majority_filter program computes the kernel's count test).** Let call number `t` of ANY family of calls
+be `majority_filter` with window `n` on a `rows × cols` image (`n ≤ rows`, `n ≤ cols`; any view `vA` of the image: the C++
+reads `input.at(y+dy, x+dx)`) on arrays `[aA]` → `[aOut]`, `aA ≠ aOut`. If the initial memory holds `mA` in array `aA` and the
+output array is zero (`PyArray_FILLWBYTE(res_a, 0)`), then after the SOLO run of the compiled step program — one step per
+window `k`, whose operation recounts the window from the `n·n` values READ — the output cell `(y+n/2)*cols + n/2 + x` of
+window `(y, x) = (k / (cols−n), k % (cols−n))` holds `1` exactly when `C08.majorityCount n pixels y x ≥ n*n/2` and `0`
+otherwise: the very count and threshold of `C08.majorityLoops`, the model the driver runs (`c08 kind=kviewA
+kernel=majority`, compared with the compiled `mahotas.majority_filter` on strided views). With
+`C12_concurrent_calls_independent` the same values are there after every complete interleaving with any other calls that
+have disjoint outputs. -/
+theorem C12_majority_program_computes_model (kcs : List KCall) (t : Nat) (n rows cols : Nat) (vA vOut : C08.View)
+    (aA aOut : Nat) (hsh : vA.shape = [rows, cols]) (hr : n ≤ rows) (hc : n ≤ cols)
+    (hk : kcs[t]? = some ((Kernel3.majority n vA vOut).call ⟨[aA], [aOut]⟩))
+    (hne : aA ≠ aOut) (mA : Int → Int) (m : Mem)
+    (hA : ∀ a, m ((KLoc.mk aA a).toLoc (kcs.map (·.call))) = mA a)
+    (hZ : ∀ a, m ((KLoc.mk aOut a).toLoc (kcs.map (·.call))) = 0)
+    (k : Nat) (hkn : k < (rows - n) * (cols - n)) :
+    solo (compile kcs) t m
+        ((KLoc.mk aOut (vOut.base + ((majIdx n cols (k / (cols - n)) (k % (cols - n)) : Nat) : Int))).toLoc
+          (kcs.map (·.call))) =
+      if C08.majorityCount n (fun y x => mA (vA.at [y, x]) != 0) (k / (cols - n)) (k % (cols - n)) ≥ n * n / 2
+      then 1 else 0 :=
+  majority_solo_value kcs t n rows cols vA vOut aA aOut hsh hr hc hk hne mA m hA hZ k hkn
+
+namespace Mahotas.C12.Examples4
+open Mahotas.C12.Examples2
+/-- non-vacuity: a 4×4 bool image in Fortran order (array 10), window 2, output array 20: the solo run of the compiled
+program marks exactly the cells `C08.majorityView` marks; 4 steps, all inside the footprint, roles inside the arity -/
+def vJ : C08.View := { base := 0, shape := [4, 4], strides := [1, 4] }
+def vO : C08.View := { base := 0, shape := [4, 4], strides := [4, 1] }
+def km : Kernel3 := .majority 2 vJ vO
+def cm : Call := ⟨[10], [20]⟩
+def contentJ : List (KLoc × Val) :=
+  [(⟨10,0⟩,1),(⟨10,1⟩,1),(⟨10,2⟩,1),(⟨10,4⟩,1),(⟨10,5⟩,1),(⟨10,8⟩,1)]
+example :
+    outOf [cm] (solo (compile [km.call cm]) 0 (memOf [cm] contentJ)) 20 16 =
+      [0, 0, 0, 0, 0, 1, 1, 0, 0, 1, 0, 0, 0, 0, 0, 0] ∧
+    (C08.majorityView 2 (fun a => if a = 0 ∨ a = 1 ∨ a = 2 ∨ a = 4 ∨ a = 5 ∨ a = 8 then 1 else 0) vJ).toList.map
+        (fun o => if o.getD false then (1 : Int) else 0) = [0, 0, 0, 0, 0, 1, 1, 0, 0, 1, 0, 0, 0, 0, 0, 0] ∧
+    (km.call cm).prog.length = 4 ∧
+    ((km.call cm).prog.all (KStep.withinB cm)) = true ∧
+    (km.raw.all (RStep.rolesOk km.arity)) = true := by
+  decide +kernel
 end Mahotas.C12.Examples4
